@@ -140,7 +140,10 @@ func (p *Pipe) Exchange(req *dns.Msg, f Flags) *dns.Msg {
 	ch := p.P.NewChain()
 	defer p.P.PutChain(ch)
 	ch.Reset(w, req)
-	ctx, cancel := context.WithTimeout(context.Background(), p.Cfg.QueryTimeout.Duration+2*time.Second)
+	// The request deadline the server would set (server.serveMsgBy: read
+	// time + query timeout) — exactly, so that "reply within the query
+	// timeout" is judged against the deadline the real entry point gives.
+	ctx, cancel := context.WithTimeout(context.Background(), p.Cfg.QueryTimeout.Duration)
 	defer cancel()
 	ch.Next(ctx)
 	if !w.Written() {
